@@ -40,8 +40,9 @@ def compact_tokens(width):
 
 def build(cfg):
     from amaranth_soc import csr
-    mm, stubs = make_map(cfg)
-    mux = csr.Multiplexer(mm, shadow_overlaps=cfg["ov"])
+    early = []
+    mm, stubs = make_map(cfg, hook=lambda mm: early.append(csr.Multiplexer(mm, shadow_overlaps=cfg["ov"])))
+    mux = early[0] if early else csr.Multiplexer(mm, shadow_overlaps=cfg["ov"])
     m = Module()
     m.submodules.mux = mux
     bus = mux.bus
